@@ -223,7 +223,11 @@ def closing_comments(text: str) -> bool:
     if tgt is None:
         return False
     kids = [c for c in tgt.children]
-    return len(kids) >= 2 and kids[-1].type == "}" and kids[-2].type == "comment"
+    if not (len(kids) >= 3 and kids[-1].type == "}" and kids[-2].type == "comment"):
+        return False
+    # an own-line comment (an end-of-line comment of the last item is part of that item's line)
+    prev = next((k for k in reversed(kids[:-2]) if k.type != "comment"), None)
+    return prev is None or kids[-2].start_point[0] > prev.end_point[0]
 
 
 def leading_comment_before_target(text: str) -> bool:
